@@ -87,23 +87,28 @@ func checkClassification(r *core.Result, prog *core.Program, pk *packages.Packag
 			return true
 		}
 		n++
-		// dominating successful comma-ok assertions
+		// successful comma-ok assertions that dominate the return (enclosing `if v, ok := x.(T); ok`, or a guard clause
+		// `v, ok := x.(T); if !ok { return … }` before it)
 		var held []types.Type
-		for cur := ast.Node(ret); cur != nil; cur = parents[cur] {
-			is, ok := parents[cur].(*ast.IfStmt)
-			if !ok || ast.Node(is.Body) != cur {
-				continue
+		ast.Inspect(f.Decl.Body, func(m ast.Node) bool {
+			as, ok := m.(*ast.AssignStmt)
+			if !ok || len(as.Lhs) != 2 || len(as.Rhs) != 1 || as.Pos() > ret.Pos() {
+				return true
 			}
-			if as, ok := is.Init.(*ast.AssignStmt); ok && len(as.Lhs) == 2 && len(as.Rhs) == 1 {
-				if ta, ok := as.Rhs[0].(*ast.TypeAssertExpr); ok && ta.Type != nil {
-					if okID, ok := as.Lhs[1].(*ast.Ident); ok {
-						if c, ok := is.Cond.(*ast.Ident); ok && info.Uses[c] == info.Defs[okID] {
-							held = append(held, info.TypeOf(ta.Type))
-						}
-					}
-				}
+			ta, ok := as.Rhs[0].(*ast.TypeAssertExpr)
+			okID, ok2 := as.Lhs[1].(*ast.Ident)
+			if !ok || !ok2 || ta.Type == nil || info.Defs[okID] == nil {
+				return true
 			}
-		}
+			okObj := info.Defs[okID]
+			if dominatedBy(parents, ret, func(e ast.Expr) bool {
+				id, isID := e.(*ast.Ident)
+				return isID && info.Uses[id] == okObj
+			}) {
+				held = append(held, info.TypeOf(ta.Type))
+			}
+			return true
+		})
 		var missing []string
 		for _, want := range asserted[fam] {
 			wi, isIface := want.Underlying().(*types.Interface)
@@ -157,10 +162,10 @@ func probeOrder(pk *packages.Package, fn *core.FuncInfo) []string {
 		if !ok || ta.Type == nil {
 			continue
 		}
-		if _, anon := ta.Type.(*ast.InterfaceType); anon && !returnsAnything(is.Body.List) {
-			continue // a capability test that does not leave the function (e.g. the reset before decoding) is not a probe
-		}
 		t := info.TypeOf(ta.Type)
+		if isResetOnly(t) && !returnsAnything(is.Body.List) {
+			continue // a capability test that does not leave the function (the reset before decoding) is not a probe
+		}
 		cat := "other"
 		if fam, ok := familyOfTypeExpr(info, ta.Type); ok {
 			cat = fam
@@ -190,6 +195,7 @@ func checkC11(r *core.Result) {
 		return
 	}
 	root := prog.Pkg("")
+	r.Counts["type switches read as assertion chains"] = desugarTypeSwitches(root)
 	info := root.TypesInfo
 	funcs := funcsOfFiles(root, c11Files...)
 	regs, switches := findRegions(root, funcs)
@@ -226,7 +232,18 @@ func checkC11(r *core.Result) {
 	}
 	// D6
 	cacheOK, nUses := true, 0
-	var cacheObj types.Object = root.Types.Scope().Lookup("unmarshalMap")
+	// the type cache: the package-level sync.Map that MsgType consults
+	var cacheObj types.Object
+	if mt := core.FindFunc(root, "MsgType"); mt != nil && mt.Decl != nil {
+		ast.Inspect(mt.Decl.Body, func(n ast.Node) bool {
+			if id, ok := n.(*ast.Ident); ok && cacheObj == nil {
+				if v, ok := info.Uses[id].(*types.Var); ok && v.Parent() == root.Types.Scope() && v.Type().String() == "sync.Map" {
+					cacheObj = v
+				}
+			}
+			return true
+		})
+	}
 	for _, file := range root.Syntax {
 		if strings.HasSuffix(prog.Fset.Position(file.Pos()).Filename, "_test.go") {
 			continue
@@ -461,33 +478,59 @@ func checkResetAndCache(r *core.Result, prog *core.Program, pk *packages.Package
 					ok0 = okID != nil && condID != nil && info.Uses[condID] == info.Defs[okID] && callsReset && returnsAnything(is.Body.List)
 				}
 			}
-			if is, ok := body[1].(*ast.IfStmt); ok && is.Init == nil {
-				if b, ok := is.Cond.(*ast.BinaryExpr); ok && b.Op == token.EQL && strings.HasSuffix(types.ExprString(b.Y), "MessageTypeGoogle") && strings.Contains(types.ExprString(b.X), "MsgType(") {
-					calls := false
-					ast.Inspect(is.Body, func(n ast.Node) bool {
-						if c, ok := n.(*ast.CallExpr); ok {
-							if fn := staticCallee(info, c); fn != nil && fn.Name() == "Reset" {
-								if fam, ok := calleeFamily(fn); ok && fam == "v2" {
-									calls = true
-								}
-							}
-						}
-						return true
-					})
-					ok1 = calls && returnsAnything(is.Body.List)
-				}
-			}
-			if es, ok := body[len(body)-1].(*ast.ExprStmt); ok {
-				if c, ok := es.X.(*ast.CallExpr); ok {
-					if id, ok := c.Fun.(*ast.Ident); ok && id.Name == "panic" {
-						okEnd = true
+			// the rest, as dominance facts: the v2 runtime's Reset runs only where MsgType(m) == MessageTypeGoogle is
+			// established, the documented panic only where it is refuted, and nothing else happens
+			parents := parentMap(f.Decl.Body)
+			isV2 := func(op token.Token) func(ast.Expr) bool {
+				return func(e ast.Expr) bool {
+					b, ok := e.(*ast.BinaryExpr)
+					if !ok || b.Op != op {
+						return false
 					}
+					x, y := types.ExprString(b.X), types.ExprString(b.Y)
+					return strings.Contains(x, "MsgType(") && strings.HasSuffix(y, "MessageTypeGoogle") || strings.Contains(y, "MsgType(") && strings.HasSuffix(x, "MessageTypeGoogle")
 				}
 			}
+			nV2, nPanic, okV2, okPanic, stray := 0, 0, true, true, 0
+			for _, st := range body[1:] {
+				ast.Inspect(st, func(n ast.Node) bool {
+					c, ok := n.(*ast.CallExpr)
+					if !ok {
+						return true
+					}
+					if id, ok := c.Fun.(*ast.Ident); ok && id.Name == "panic" {
+						nPanic++
+						if !dominatedBy2(parents, c, isV2(token.NEQ), isV2(token.EQL)) {
+							okPanic = false
+						}
+						return false
+					}
+					if tv, ok := info.Types[c.Fun]; ok && tv.IsType() {
+						return true
+					}
+					fn := staticCallee(info, c)
+					if fn != nil && fn.Name() == "MsgType" {
+						return true
+					}
+					if fn != nil && fn.Name() == "Reset" {
+						if fam, ok := calleeFamily(fn); ok && fam == "v2" {
+							nV2++
+							if !dominatedBy2(parents, c, isV2(token.EQL), isV2(token.NEQ)) {
+								okV2 = false
+							}
+							return true
+						}
+					}
+					stray++
+					return true
+				})
+			}
+			ok1 = nV2 == 1 && okV2
+			okEnd = nPanic == 1 && okPanic && stray == 0
 		}
 		r.Ob("D11", "Reset :: a message with its own Reset() method is reset through it", prog.Pos(f.Pos()), ok0, "the first statement must be `if r, ok := m.(interface{ Reset() }); ok { r.Reset(); return }`")
-		r.Ob("D11", "Reset :: other Google v2 messages are reset by the v2 runtime", prog.Pos(f.Pos()), ok1, "the second statement must be `if MsgType(m) == MessageTypeGoogle { proto.Reset(…); return }`")
-		r.Ob("D11", "Reset :: anything else reaches the documented panic", prog.Pos(f.Pos()), okEnd && len(body) == 3, "Reset must consist of the two probes and the documented panic")
+		r.Ob("D11", "Reset :: other Google v2 messages are reset by the v2 runtime", prog.Pos(f.Pos()), ok1, "after the own-Reset probe the v2 runtime's Reset must run exactly where MsgType(m) == MessageTypeGoogle is established")
+		r.Ob("D11", "Reset :: anything else reaches the documented panic", prog.Pos(f.Pos()), okEnd, "everything that is not a Google v2 message must reach the documented panic, and Reset must do nothing else")
 	} else {
 		r.Fail("anchor", "Reset", "", "function not found")
 	}
@@ -535,53 +578,74 @@ func checkResetAndCache(r *core.Result, prog *core.Program, pk *packages.Package
 		})
 		r.Floor("uses of the cached classification", n, 1)
 	}
-	// D4b: the two single-comparison decisions of deduceMsgType
+	// D4b: the two single-comparison decisions of deduceMsgType, as facts that dominate the verdicts: a Gogo or v1
+	// verdict is returned only for pointer types; Gogo only where gogo.MessageName(m) != "" is established, v1 only
+	// where it is refuted (enclosing if, else branch, or guard clause - any equivalent arrangement)
 	if f := core.FindFunc(pk, "deduceMsgType"); f != nil && f.Decl != nil {
-		nonPtr, gogoReg := false, false
-		ast.Inspect(f.Decl.Body, func(nn ast.Node) bool {
-			is, ok := nn.(*ast.IfStmt)
+		typeOnlyVerdict(r, prog, info, f)
+		parents := parentMap(f.Decl.Body)
+		cmp := func(e ast.Expr, op token.Token, left func(ast.Expr) bool, right func(ast.Expr) bool) bool {
+			b, ok := e.(*ast.BinaryExpr)
+			if !ok || b.Op != op {
+				return false
+			}
+			return left(b.X) && right(b.Y) || left(b.Y) && right(b.X)
+		}
+		isKindCall := func(e ast.Expr) bool { return strings.HasSuffix(types.ExprString(ast.Unparen(e)), ".Kind()") }
+		isPtrConst := func(e ast.Expr) bool {
+			s := types.ExprString(ast.Unparen(e))
+			return s == "reflect.Ptr" || s == "reflect.Pointer"
+		}
+		isGogoName := func(e ast.Expr) bool {
+			c, ok := ast.Unparen(e).(*ast.CallExpr)
 			if !ok {
+				return false
+			}
+			fn := staticCallee(info, c)
+			if fn == nil || fn.Name() != "MessageName" {
+				return false
+			}
+			fam, ok := calleeFamily(fn)
+			return ok && fam == "gogo"
+		}
+		isEmpty := func(e ast.Expr) bool { return types.ExprString(ast.Unparen(e)) == `""` }
+		nonPtr, gogoReg, v1Unreg := true, true, true
+		nG, nV := 0, 0
+		ast.Inspect(f.Decl.Body, func(nn ast.Node) bool {
+			ret, ok := nn.(*ast.ReturnStmt)
+			if !ok || len(ret.Results) != 1 {
 				return true
 			}
-			retName := ""
-			if len(is.Body.List) > 0 {
-				if ret, ok := is.Body.List[len(is.Body.List)-1].(*ast.ReturnStmt); ok && len(ret.Results) == 1 {
-					retName = types.ExprString(ret.Results[0])
-				}
+			name := types.ExprString(ret.Results[0])
+			if name != "MessageTypeGogo" && name != "MessageTypeGoogleV1" {
+				return true
 			}
-			var conds []ast.Expr
-			var flat func(e ast.Expr)
-			flat = func(e ast.Expr) {
-				if b, ok := e.(*ast.BinaryExpr); ok && b.Op == token.LOR {
-					flat(b.X)
-					flat(b.Y)
-					return
-				}
-				conds = append(conds, e)
+			if !dominatedBy2(parents, ret,
+				func(e ast.Expr) bool { return cmp(e, token.EQL, isKindCall, isPtrConst) },
+				func(e ast.Expr) bool { return cmp(e, token.NEQ, isKindCall, isPtrConst) }) {
+				nonPtr = false
 			}
-			flat(is.Cond)
-			for _, cnd := range conds {
-				b, ok := cnd.(*ast.BinaryExpr)
-				if !ok {
-					continue
+			registered := dominatedBy2(parents, ret,
+				func(e ast.Expr) bool { return cmp(e, token.NEQ, isGogoName, isEmpty) },
+				func(e ast.Expr) bool { return cmp(e, token.EQL, isGogoName, isEmpty) })
+			unregistered := dominatedBy2(parents, ret,
+				func(e ast.Expr) bool { return cmp(e, token.EQL, isGogoName, isEmpty) },
+				func(e ast.Expr) bool { return cmp(e, token.NEQ, isGogoName, isEmpty) })
+			if name == "MessageTypeGogo" {
+				nG++
+				if !registered {
+					gogoReg = false
 				}
-				l, rr := types.ExprString(b.X), types.ExprString(b.Y)
-				if strings.HasSuffix(l, ".Kind()") && (rr == "reflect.Ptr" || rr == "reflect.Pointer") && b.Op == token.NEQ && retName == "MessageTypeUnknown" {
-					nonPtr = true
-				}
-				if strings.Contains(l, "MessageName(") && rr == `""` && b.Op == token.NEQ && retName == "MessageTypeGogo" {
-					if fn := staticCallee(info, b.X.(*ast.CallExpr)); fn != nil {
-						if fam, ok := calleeFamily(fn); ok && fam == "gogo" {
-							gogoReg = true
-						}
-					}
+			} else {
+				nV++
+				if !unregistered {
+					v1Unreg = false
 				}
 			}
 			return true
 		})
-		typeOnlyVerdict(r, prog, info, f)
-		r.Ob("D4b", "deduceMsgType :: values that are not pointers are not v1/gogo messages", prog.Pos(f.Pos()), nonPtr, "expected `if … typ.Kind() != reflect.Ptr { return MessageTypeUnknown }` before the v1/gogo assertion")
-		r.Ob("D4b", "deduceMsgType :: Gogo messages are those registered with the Gogo runtime", prog.Pos(f.Pos()), gogoReg, "expected `if gogo.MessageName(m) != \"\" { return MessageTypeGogo }`: the v1 and Gogo message interfaces are identical, the registry is the only discriminator")
+		r.Ob("D4b", "deduceMsgType :: values that are not pointers are not v1/gogo messages", prog.Pos(f.Pos()), nonPtr && nG+nV > 0, "a Gogo / v1 verdict is returned on a path where `typ.Kind() == reflect.Ptr` is not established (expected `if … typ.Kind() != reflect.Ptr { return MessageTypeUnknown }` before the v1/gogo assertion)")
+		r.Ob("D4b", "deduceMsgType :: Gogo messages are those registered with the Gogo runtime", prog.Pos(f.Pos()), gogoReg && v1Unreg && nG > 0 && nV > 0, "MessageTypeGogo must be returned exactly where gogo.MessageName(m) != \"\" holds and MessageTypeGoogleV1 where it does not: the v1 and Gogo message interfaces are identical, the registry is the only discriminator")
 	}
 }
 
@@ -692,4 +756,17 @@ func typeOnlyVerdict(r *core.Result, prog *core.Program, info *types.Info, f *co
 		return true
 	})
 	r.Floor("uses of the classified value in "+f.Name, n, 3)
+}
+
+// isResetOnly: an interface type whose only method is Reset().
+func isResetOnly(t types.Type) bool {
+	if t == nil {
+		return false
+	}
+	it, ok := t.Underlying().(*types.Interface)
+	if !ok || it.NumMethods() != 1 || it.Method(0).Name() != "Reset" {
+		return false
+	}
+	sig := it.Method(0).Type().(*types.Signature)
+	return sig.Params().Len() == 0 && sig.Results().Len() == 0
 }
